@@ -24,17 +24,24 @@ namespace {
 
 // a memory fault / abort inside the code under test (e.g. an out-of-range cell
 // index in a sweep) must be reported as a failing case, not as a dead shard
-const VCase *g_case = nullptr;
+// (an out-of-range write usually surfaces later, in an unrelated allocation:
+// the last executed case is kept and blamed then)
+VCase g_last;
+bool g_have_case = false, g_inside = false;
 bool g_replay = false;
 const char *g_replay_file = "";
 std::string g_pid = "C04";
 
 void crash_handler(int sig) {
-  signal(sig, SIG_DFL);
-  if (!g_case)
+  // (a second fault while reporting, e.g. in a corrupted heap, ends the process)
+  for (int s2 : {SIGSEGV, SIGABRT, SIGBUS, SIGFPE})
+    signal(s2, SIG_DFL);
+  if (!g_have_case)
     raise(sig);
   const std::string msg =
-      fmt("crash (signal %d) inside the hydro step of this case", sig);
+      fmt("crash (signal %d) %s the hydro step of this case%s", sig,
+          g_inside ? "inside" : "after",
+          g_inside ? "" : " (memory corrupted by it)");
   if (g_replay) {
     printf("REPLAY-FAIL %s: %s\n", g_replay_file, msg.c_str());
     fflush(stdout);
@@ -43,18 +50,17 @@ void crash_handler(int sig) {
   const char *fd = getenv("VERIF_FAILDIR");
   char fn[600];
   snprintf(fn, sizeof fn, "%s/%s-%s-crash-%016llx.case", fd ? fd : ".",
-           g_pid.c_str(), g_case->prop.c_str(),
-           (unsigned long long)g_case->hash());
+           g_pid.c_str(), g_last.prop.c_str(), (unsigned long long)g_last.hash());
   {
     std::ofstream f(fn);
-    f << g_case->to_text() << "# " << msg << "\n";
+    f << g_last.to_text() << "# " << msg << "\n";
   }
-  printf("FAILCASE %s %s\n", g_case->prop.c_str(), fn);
+  printf("FAILCASE %s %s\n", g_last.prop.c_str(), fn);
   fflush(stdout);
   if (const char *out = getenv("VERIF_OUT")) {
     std::ofstream o(out);
     o << "{\"property_id\":" << vr::jstr(g_pid) << ",\"props\":{"
-      << vr::jstr(g_case->prop)
+      << vr::jstr(g_last.prop)
       << ":{\"evaluations\":1,\"nontrivial\":0,\"distinct_nontrivial\":0,"
          "\"known_excluded\":0,\"wall_s\":0,\"failed\":true,\"fail_msg\":"
       << vr::jstr(msg) << ",\"fail_file\":" << vr::jstr(fn)
@@ -65,8 +71,11 @@ void crash_handler(int sig) {
 }
 
 struct CaseGuard {
-  CaseGuard(const VCase &c) { g_case = &c; }
-  ~CaseGuard() { g_case = nullptr; }
+  CaseGuard(const VCase &c) {
+    g_last = c;
+    g_have_case = g_inside = true;
+  }
+  ~CaseGuard() { g_inside = false; }
 };
 
 const double CFL = 0.2; // default of TaskBasedRadiationHydrodynamicsSimulation:CFL
